@@ -19,7 +19,6 @@ CONSTANTS
   ParserContinuesAfterShortRange = FALSE
   Budget0PlansNothing = TRUE
   TailInitPersistsZero = FALSE
-CONSTRAINT GuardKnown
 INVARIANTS RefinesCex
 VIEW View
 CHECK_DEADLOCK FALSE
